@@ -1667,7 +1667,268 @@ fn gen(rng: &mut Rng, n: usize, _tier: &str) -> Vec<String> {
     for _ in 0..n / 8 {
         out.push(gen_kb_edit(rng));
     }
-    out.into_iter().map(|c| vary_mutators(rng, &c)).collect()
+    let mut out: Vec<String> = out.into_iter().map(|c| vary_mutators(rng, &c)).collect();
+    // un-indexed rules on ONE object, sibling fields asked in every order (appended after the pass above: the random stream of
+    // the families before it is unchanged)
+    for c in gen_learned(rng, (n / 12).max(40)) {
+        out.push(vary_mutators(rng, &c));
+    }
+    // two (query, facts) states of opposite verdict whose ENGINE key texts collide under a well-known 32-bit digest
+    out.extend(gen_digest(rng));
+    out
+}
+
+/// a streaming 32-bit digest: initial state, one byte, final fold
+struct Digest {
+    init: u64,
+    step: fn(u64, u8) -> u64,
+    fin: fn(u64) -> u32,
+}
+
+const M32: u64 = 0xffff_ffff;
+const DIGESTS: [Digest; 10] = [
+    // FNV-1a 32
+    Digest { init: 0x811c_9dc5, step: |h, b| ((h ^ b as u64).wrapping_mul(0x0100_0193)) & M32, fin: |h| h as u32 },
+    // FNV-1 32
+    Digest { init: 0x811c_9dc5, step: |h, b| (h.wrapping_mul(0x0100_0193) & M32) ^ b as u64, fin: |h| h as u32 },
+    // FNV-1a 64, low half
+    Digest { init: 0xcbf2_9ce4_8422_2325, step: |h, b| (h ^ b as u64).wrapping_mul(0x0000_0100_0000_01b3), fin: |h| h as u32 },
+    // FNV-1a 64, xor-folded
+    Digest { init: 0xcbf2_9ce4_8422_2325, step: |h, b| (h ^ b as u64).wrapping_mul(0x0000_0100_0000_01b3), fin: |h| ((h >> 32) ^ h) as u32 },
+    // djb2 (h * 33 + b) and its xor variant
+    Digest { init: 5381, step: |h, b| (h.wrapping_mul(33).wrapping_add(b as u64)) & M32, fin: |h| h as u32 },
+    Digest { init: 5381, step: |h, b| (h.wrapping_mul(33) & M32) ^ b as u64, fin: |h| h as u32 },
+    // Java's String::hashCode
+    Digest { init: 0, step: |h, b| (h.wrapping_mul(31).wrapping_add(b as u64)) & M32, fin: |h| h as u32 },
+    // sdbm
+    Digest { init: 0, step: |h, b| ((b as u64).wrapping_add(h << 6).wrapping_add(h << 16).wrapping_sub(h)) & M32, fin: |h| h as u32 },
+    // CRC-32 (IEEE, reflected)
+    Digest {
+        init: 0xffff_ffff,
+        step: |h, b| {
+            let mut c = (h ^ b as u64) & M32;
+            for _ in 0..8 {
+                c = if c & 1 == 1 { 0xEDB8_8320 ^ (c >> 1) } else { c >> 1 };
+            }
+            c
+        },
+        fin: |h| !(h as u32),
+    },
+    // Adler-32
+    Digest {
+        init: 1,
+        step: |h, b| {
+            let a = ((h & 0xffff) + b as u64) % 65521;
+            let s = ((h >> 16) + a) % 65521;
+            (s << 16) | a
+        },
+        fin: |h| h as u32,
+    },
+];
+
+/// V15 (seeded C11-14) — the memo cache keyed by a DIGEST of the key text instead of the text: two states of one engine whose
+/// verdicts differ and whose key texts (`memo_key`: query, max_solutions, kb.version(), Debug of the facts sorted by name)
+/// have the same 32-bit digest. The free part is an Integer fact (`Zs`, sorted behind every FIELDS name — a session id); a
+/// birthday search over < 2^19 values per side finds a colliding pair for each digest of `DIGESTS`. A two-query history:
+/// state 1 asked (verdict stored), state 2 asked — a cache that compares digests answers it with the verdict of state 1.
+fn gen_digest(rng: &mut Rng) -> Vec<String> {
+    use std::collections::HashMap;
+    let mut out = Vec::new();
+    for (di, d) in DIGESTS.iter().enumerate() {
+        for round in 0..2 {
+            // (rule, field name of the premise, Debug of the value that proves, of the value that does not, their case tokens)
+            let (rule, pname, yes, no, ty, tn) = *rng.pick(&[
+                ("F7.gt.n3~F5:=t", "Y", "Number(5.0)", "Number(2.0)", "F7=n5", "F7=n2"),
+                ("F6.eq.n1~F5:=t", "X", "Number(1.0)", "Number(0.0)", "F6=n1", "F6=n0"),
+                ("F6.eq.i1~F5:=t", "X", "Integer(1)", "Integer(7)", "F6=i1", "F6=i7"),
+            ]);
+            let ms = if rng.chance(3, 4) { 1 } else { 3 };
+            let bystander = rng.chance(1, 3);
+            let version = if bystander { 2 } else { 1 };
+            let yes_first = round == 0;
+            let (v1, v2, t1, t2) = if yes_first { (yes, no, ty, tn) } else { (no, yes, tn, ty) };
+            let fold = |text: &str, h0: u64| text.bytes().fold(h0, |h, b| (d.step)(h, b));
+            let pre = |v: &str| fold(&format!("G == true\u{0}{}\u{0}{}\u{0}[(\"{}\", {}), (\"Zs\", Integer(", ms, version, pname, v), d.init);
+            let (h1, h2) = (pre(v1), pre(v2));
+            let base = rng.below(1 << 30);
+            let mut tab: HashMap<u32, u64> = HashMap::new();
+            let cap = 1u64 << 19;
+            // candidate ids: a scrambled sequence of non-negative i64 (varying lengths: linear digests need that)
+            let id = |k: u64| -> u64 {
+                let mut z = k.wrapping_mul(0x9E37_79B9_7F4A_7C15);
+                z = (z ^ (z >> 30)).wrapping_mul(0xBF58_476D_1CE4_E5B9);
+                z = (z ^ (z >> 27)).wrapping_mul(0x94D0_49BB_1331_11EB);
+                (z ^ (z >> 31)) >> (1 + (k % 40))
+            };
+            for k in base..base + cap {
+                let a = id(k);
+                tab.entry((d.fin)(fold(&format!("{}))]", a), h1))).or_insert(a);
+            }
+            let mut pair = None;
+            for k in base + cap..base + 2 * cap {
+                let b = id(k);
+                if let Some(a) = tab.get(&(d.fin)(fold(&format!("{}))]", b), h2))) {
+                    pair = Some((*a, b));
+                    break;
+                }
+            }
+            let Some((a, b)) = pair else { continue };
+            let _ = di;
+            let rules = if bystander { format!("{};F0.eq.t~F4:=t", rule) } else { rule.to_string() };
+            let strat = *rng.pick(&["D", "D", "B", "I"]);
+            out.push(format!(
+                "{}{}s{}m1 {} {} XZs=i{},QF5.eq.t,DF5,S{},XZs=i{},QF5.eq.t",
+                strat,
+                rng.range(2, 4),
+                ms,
+                t1,
+                rules,
+                a,
+                t2,
+                b
+            ));
+        }
+    }
+    out
+}
+
+/// V15 — the conclusion index is older than the rule set: 2..4 rules concluding fields of ONE object (`U.P` / `U.Q`, or `E` /
+/// `E._return`) reach the knowledge base of the live engine WITHOUT a rebuild_index (enabled late, added as copies of disabled
+/// templates, or re-added under new names after a rebuild without them), in an order unrelated to their numbers; then 2..4
+/// queries on those fields, the derived facts taken out again after each, in EVERY order (one case per order; six drawn when
+/// there are 24). `find_candidates` proposes, for a dotted goal, every indexed rule on the goal's OBJECT, and the linear
+/// fallback over the live rules runs only when the index proposes nothing: whatever a query leaves behind in the index (a
+/// "learned" rule, a cached candidate set) changes what a later query on a sibling field reaches. Compared query by query with
+/// the fresh engine (same stale index, asked nothing). Bystanders: an indexed rule on another object / on the same object,
+/// a chain between the siblings.
+fn gen_learned(rng: &mut Rng, bases: usize) -> Vec<String> {
+    let mut out = Vec::new();
+    for b in 0..bases {
+        let (fa, fb) = if b % 3 == 2 { (4usize, 10usize) } else { (8, 9) };
+        let premises = [("F6.eq.n1", "F6=n1"), ("F7.gt.n3", "F7=n5"), ("F1.eq.sab", "F1=sab")];
+        let (prem, fact) = *rng.pick(&premises);
+        let vals = ["t", "t", "f", "n1", "sab"];
+        let nr = rng.range(2, 4) as usize;
+        // (field, value) concluded by late rule i: the first two cover both fields
+        let mut heads: Vec<(usize, &str)> = Vec::new();
+        for i in 0..nr {
+            let f = match i {
+                0 => fa,
+                1 => fb,
+                _ => *rng.pick(&[fa, fb]),
+            };
+            let mut v = *rng.pick(&vals);
+            while heads.iter().any(|h| *h == (f, v)) {
+                v = *rng.pick(&vals);
+            }
+            heads.push((f, v));
+        }
+        let chain = rng.chance(1, 6);
+        let mut rules: Vec<String> = Vec::new();
+        for (i, (f, v)) in heads.iter().enumerate() {
+            if chain && i == 1 {
+                rules.push(format!("F{}.eq.{}~F{}:={}", heads[0].0, heads[0].1, f, v));
+            } else if rng.chance(1, 8) {
+                // one rule concluding both siblings
+                let o = if *f == fa { fb } else { fa };
+                rules.push(format!("{}~F{}:={}+F{}:={}", prem, f, v, o, v));
+            } else {
+                rules.push(format!("{}~F{}:={}", prem, f, v));
+            }
+        }
+        // how the late rules arrive
+        let mode = rng.below(3);
+        let mut arrive: Vec<usize> = (0..nr).collect();
+        rng.shuffle(&mut arrive);
+        let mut ops: Vec<String> = Vec::new();
+        let mut tokens: Vec<String> = rules.iter().map(|r| if mode == 2 { r.clone() } else { format!("*{}", r) }).collect();
+        // bystander known to the index from the start: on another object, or (1 in 5) on the same object
+        let by = rng.below(5);
+        if by < 2 {
+            tokens.push(format!("{}~F5:=t", prem));
+        } else if by == 2 {
+            tokens.push(format!("F0.eq.t~F{}:=n7", fb));
+        }
+        let nt = tokens.len();
+        match mode {
+            0 => {
+                for i in &arrive {
+                    ops.push(format!("e{}", i));
+                }
+            }
+            1 => {
+                for (k, i) in arrive.iter().enumerate() {
+                    ops.push(format!("+{}={}", nt + (nr - 1 - k), i));
+                }
+            }
+            _ => {
+                for i in 0..nr {
+                    ops.push(format!("-{}", i));
+                }
+                ops.push("x".to_string());
+                for (k, i) in arrive.iter().enumerate() {
+                    ops.push(format!("+{}={}", nt + (nr - 1 - k), i));
+                }
+            }
+        }
+        // the queries: one per late rule (its own conclusion), sometimes one more that nothing derives
+        let mut qs: Vec<String> = heads.iter().map(|(f, v)| format!("F{}.eq.{}", f, v)).collect();
+        if qs.len() < 4 && rng.chance(1, 4) {
+            qs.push(format!("F{}.eq.n9", *rng.pick(&[fa, fb])));
+        }
+        if by < 2 && qs.len() < 4 && rng.chance(1, 2) {
+            qs.push("F5.eq.t".to_string());
+        }
+        let mut orders: Vec<Vec<usize>> = Vec::new();
+        let mut idx: Vec<usize> = (0..qs.len()).collect();
+        permutations(&mut idx, 0, &mut orders);
+        if orders.len() > 6 {
+            rng.shuffle(&mut orders);
+            orders.truncate(6);
+        }
+        let strat = ["D", "D", "D", "B", "I"][rng.below(5) as usize];
+        let cfg = format!("{}{}s{}m{}", strat, rng.range(2, 4), if rng.chance(3, 4) { 1 } else { 3 }, if rng.chance(4, 5) { 1 } else { 0 });
+        let late_rebuild = rng.chance(1, 5);
+        for ord in orders {
+            let mut o = ops.clone();
+            for (j, qi) in ord.iter().enumerate() {
+                let k = match rng.below(14) {
+                    0 => "A",
+                    1 => "N",
+                    _ => "Q",
+                };
+                o.push(format!("{}{}", k, qs[*qi]));
+                // a proof commits what it derived: take it out again, so that every query stands on the same facts
+                if j + 1 < ord.len() {
+                    o.push(format!("DF{}", fa));
+                    o.push(format!("DF{}", fb));
+                    if by < 2 {
+                        o.push("DF5".to_string());
+                    }
+                }
+            }
+            if late_rebuild {
+                o.push(format!("DF{}", fa));
+                o.push(format!("DF{}", fb));
+                o.push("x".to_string());
+                o.push(format!("Q{}", qs[ord[0]]));
+            }
+            out.push(format!("{} {} {} {}", cfg, fact, tokens.join(";"), o.join(",")));
+        }
+    }
+    out
+}
+
+fn permutations(idx: &mut Vec<usize>, k: usize, out: &mut Vec<Vec<usize>>) {
+    if k + 1 >= idx.len() {
+        out.push(idx.clone());
+        return;
+    }
+    for i in k..idx.len() {
+        idx.swap(k, i);
+        permutations(idx, k + 1, out);
+        idx.swap(k, i);
+    }
 }
 
 /// the route of every caller-side change: half of the `S` / `D` / `X` ops keep `Facts::set` / `remove`, the others draw one of
